@@ -183,9 +183,12 @@
     (hy-repr (get x 0))
     (if x.conversion f" !{x.conversion}" "")
     (if (> (len x) 1)
-      (+ " :" (if (isinstance (get x 1) hy.models.String)
-        (get x 1)
-        (hy-repr (get x 1))))
+      (+ " :" #* (lfor component (cut x 1 None)
+        (if (isinstance component hy.models.String)
+          (.replace (.replace (str component)
+            "{" "{{")
+            "}" "}}")
+          (hy-repr component))))
       "")
     "}")))
 
